@@ -1825,6 +1825,16 @@ func (s *BgpServer) handleFSMMessage(peer *peer, e *fsmMsg) {
 					}, false)
 				}
 			}
+			if conf.GracefulRestart.State.PeerRestarting {
+				// RFC 4724 4.2: the peer came back without the graceful restart
+				// capability (or without any address family in it), so no
+				// End-of-RIB marker is to be expected: stop retaining its stale
+				// routes now.
+				if families, _ := peer.forwardingPreservedFamilies(); len(families) == 0 {
+					peer.stopPeerRestarting()
+					s.propagateUpdate(peer, peer.adjRibIn.DropStale(peer.configuredRFlist()))
+				}
+			}
 			notLocalRestarting := !conf.GracefulRestart.State.LocalRestarting
 			if notLocalRestarting {
 				// When graceful-restart cap (which means intention
